@@ -27,7 +27,7 @@ structure ScriptSel where
   script : Script          -- outcomes of Get SEL Entry / Delete SEL Entry
   rplan : List Letter      -- outcomes of the Reserve SEL requests, in order; then always granted
   lastRes : Nat            -- reservation ids are granted consecutively: lastRes + 1, …
-  rec : List Nat           -- the record served (16 bytes)
+  entry : List Nat         -- the record served (16 bytes)
   next : Nat               -- "next record id" reported with it
   deriving Repr, Inhabited
 
@@ -47,7 +47,7 @@ def scriptSend : Send ScriptSel := fun d cmd p =>
       match p with
       | [_, _, _, _, off, len] =>
         (d', 0 :: d.next % 256 :: d.next / 256 % 256 ::
-          (if len = 0xFF then d.rec.drop off else (d.rec.drop off).take len))
+          (if len = 0xFF then d.entry.drop off else (d.entry.drop off).take len))
       | _ => (d', [0xC7])
   else if cmd = 0x46 then
     let d' := { d with script := d.script.next.2 }
